@@ -59,12 +59,12 @@ TYPES = "sql/sqltypes.py::"
 
 # ============================================================================================ the world
 
-def _builds_select(ix, f: FuncInfo, _cache={}) -> bool:
+def _builds_select(ix, f: FuncInfo) -> bool:
     """does the function construct a SELECT statement (a query builder whose result is only handed to the
     connection)?  Such results are opaque to the model."""
-    k = (id(ix), f.key)
-    if k in _cache:
-        return _cache[k]
+    hit = getattr(f.node, "_nac_builds_select", None)     # memo on the AST node: overlays replace nodes
+    if hit is not None:
+        return hit
     out = False
     for c in calls_in(f.node):
         nm = call_name(c) or ""
@@ -75,7 +75,7 @@ def _builds_select(ix, f: FuncInfo, _cache={}) -> bool:
         if isinstance(r, (FuncInfo, ClassInfo)) and r.module.relpath.startswith("sql/"):
             out = True
             break
-    _cache[k] = out
+    f.node._nac_builds_select = out
     return out
 
 
@@ -668,7 +668,6 @@ def _r2_mysql(ctx, actions):
             continue
         show = _mysql_show_create(W, tm, {})
         MysqlCatalog(W, show)
-        W.dialect.attrs.pop("_tabledef_parser", None)
         try:
             got = _guard(ctx, f"mysql reader {sid}", L.call_method, W.dialect, "get_foreign_keys", W.conn, tm.name)
         except ModelRaise as e:
@@ -847,6 +846,13 @@ def _is_canonical_key(dialect: str, key: str) -> bool:
 
 
 def _affinity(W: World, cls: ClassInfo) -> Optional[ClassInfo]:
+    memo = W.__dict__.setdefault("_aff", {})
+    if cls.key not in memo:
+        memo[cls.key] = _affinity_uncached(W, cls)
+    return memo[cls.key]
+
+
+def _affinity_uncached(W: World, cls: ClassInfo) -> Optional[ClassInfo]:
     t = Inst(cls, {})
     t.default_attr = lambda a: None
     v = W.L.getattr(t, "_type_affinity")
@@ -932,7 +938,6 @@ def _read_type(ctx, W: World, dialect: str, catalog_text: str):
         show = ("CREATE TABLE `c` (\n  `x` " + catalog_text + " DEFAULT NULL\n"
                 ") ENGINE=InnoDB DEFAULT CHARSET=utf8mb4 COLLATE=utf8mb4_0900_ai_ci")
         MysqlCatalog(W, show)
-        W.dialect.attrs.pop("_tabledef_parser", None)
         cols = L.call_method(W.dialect, "get_columns", W.conn, "c")
     if not isinstance(cols, list) or len(cols) != 1 or not isinstance(cols[0], dict):
         raise Unsupported(f"column reflection returned {cols!r}")
@@ -1064,3 +1069,420 @@ def r1(ctx):
         W = mk()
         _r1_dialect(ctx, key, W)
         _r1_own_names(ctx, key, W)
+
+
+# ============================================================================================ R5: record keys
+
+# keys of reflected records that are private to a dialect (never handed to a schema constructor)
+PRIVATE_KEYS = {
+    ("sqlite", "column", "primary_key"):
+        "position in the primary key from PRAGMA table_info; consumed by SQLiteDialect.get_pk_constraint, ignored by "
+        "Inspector._reflect_column",
+}
+
+
+def _ctor_params(W: World, cls: ClassInfo) -> Tuple[set, bool]:
+    f = W.L.find_method(cls, "__init__")
+    if f is None:
+        raise AnalysisError(f"C15-R5: {cls.key} has no __init__")
+    a = f.node.args
+    names = {x.arg for x in a.posonlyargs + a.args + a.kwonlyargs} - {"self"}
+    return names, a.kwarg is not None
+
+
+def _consumer_class(ctx, class_name: str) -> ClassInfo:
+    """the schema class that Inspector methods construct with a `**<reflected dictionary>` argument"""
+    ix = ctx.index
+    insp = ix.cls("engine/reflection.py::Inspector")
+    want = ix.cls(SCH + class_name)
+    for f in insp.methods.values():
+        for c in calls_in(f.node):
+            if not any(k.arg is None for k in c.keywords):
+                continue
+            r = ix.resolve(f.module, call_name(c) or "")
+            if r is want:
+                ctx.functions_analysed.add(f.key)
+                return want
+    raise AnalysisError(f"C15-R5: no Inspector method constructs {class_name}(**<reflected options>)")
+
+
+def _typed_dict_fields(ctx, key: str) -> set:
+    import ast as _ast
+    c = ctx.index.cls(key)
+    out = set()
+    for k in [c] + [b for b in c.bases if b is not None]:
+        for st in k.node.body:
+            if isinstance(st, _ast.AnnAssign) and isinstance(st.target, _ast.Name):
+                out.add(st.target.id)
+    return out
+
+
+@R.rule("C15-R5", floor=20, template="T-TABLE",
+        desc="every key of a reflected foreign key `options` dictionary / index `dialect_options` dictionary is an "
+             "argument the constructor that Inspector calls with `**` accepts (or a `<dialect>_<name>` argument declared "
+             "in the dialect's construct_arguments); every key of a reflected column record is a field of "
+             "ReflectedColumn (records observed from the model runs)")
+def r5(ctx):
+    fk_cls = _consumer_class(ctx, "ForeignKeyConstraint")
+    ix_cls = _consumer_class(ctx, "Index")
+    col_fields = _typed_dict_fields(ctx, "engine/interfaces.py::ReflectedColumn")
+    ctx.require(len(col_fields) >= 4, "ReflectedColumn fields not found")
+    rich = [{"name": "fk1", "cols": ["pid"], "rtable": "p", "rcols": ["id"], "ondelete": "CASCADE", "onupdate": "SET NULL",
+             "deferrable": True, "initially": "DEFERRED"},
+            {"name": "fk2", "cols": ["qid"], "rtable": "q", "rcols": ["id"], "match": "FULL"}]
+    worlds = [
+        (SQLITE, lambda: World(ctx, SQLITE)),
+        (PG, lambda: World(ctx, PG, paramstyle="named", default_schema_name="public", server_version_info=(16, 0))),
+        (MYSQL, lambda: _mysql_world(ctx)),
+    ]
+    for dkey, mk in worlds:
+        W = mk()
+        L = W.L
+        dn = W.name
+        params, _ = _ctor_params(W, fk_cls)
+        dargs = W.construct_argument_names(fk_cls)
+        seen: Dict[str, Any] = {}
+        for f in rich:
+            tm, text, why = _guard(ctx, f"{dn} writer", _writer_accepts, W, [dict(f)], dn == "sqlite")
+            if tm is None:
+                continue
+            try:
+                if dn == "sqlite":
+                    SqliteCatalog(tm, text)
+                    got = _guard(ctx, "sqlite fk reader", L.call_method, W.dialect, "get_foreign_keys", W.conn, tm.name)
+                elif dn == "postgresql":
+                    rows = [(tm.name, f["name"], _pg_condef(W, f), "public", None)]
+                    W.conn.stubs["execute"] = _first_then_empty(_Result(rows=rows))
+                    got = _guard(ctx, "pg fk reader", L.call_method, W.dialect, "get_multi_foreign_keys", W.conn, None,
+                                 [tm.name], Opaque("scope"), Opaque("kind"))
+                    got = dict(list(got)).get((None, tm.name))
+                else:
+                    MysqlCatalog(W, _mysql_show_create(W, tm, {}))
+                    got = _guard(ctx, "mysql fk reader", L.call_method, W.dialect, "get_foreign_keys", W.conn, tm.name)
+            except ModelRaise:
+                continue        # judged by C15-R2
+            for r in got or []:
+                for k, v in (r.get("options") or {}).items():
+                    seen.setdefault(k, v)
+        ctx.require(seen, f"C15-R5: no foreign key option was reflected by the {dn} model run")
+        for k in sorted(seen):
+            key = f"{dkey}:reflected-fk-option[{k}]"
+            ok = k in params or (k.startswith(dn + "_") and k[len(dn) + 1:] in dargs)
+            ctx.check(ok, key, f"reflected foreign key option {k!r} is not an argument of {fk_cls.name}() "
+                      f"(arguments: {sorted(params)}; {dn} dialect arguments: {sorted(dargs)}): Table reflection raises",
+                      f"{k!r} accepted by {fk_cls.name}()", W.dcls.loc)
+        # column records
+        for cat in (_canonical_type_text(dn, "INTEGER"),):
+            try:
+                L.warnings.clear()
+                rec = _column_record(ctx, W, dn, cat)
+            except ModelRaise:
+                continue
+            for k in sorted(rec):
+                key = f"{dkey}:reflected-column-key[{k}]"
+                if (dn, "column", k) in PRIVATE_KEYS:
+                    ctx.ok(key, "private key: " + PRIVATE_KEYS[(dn, "column", k)], nontrivial=False)
+                    continue
+                ctx.check(k in col_fields, key, f"reflected column record key {k!r} is not a field of ReflectedColumn "
+                          f"({sorted(col_fields)}): Inspector._reflect_column ignores it", f"{k!r} is a ReflectedColumn field",
+                          W.dcls.loc)
+        if dn == "sqlite":
+            iparams, _ = _ctor_params(W, ix_cls)
+            iargs = W.construct_argument_names(ix_cls)
+            cols = [("id", "INTEGER", False), ("a", "INTEGER", True)]
+            tm = TableModel(W, "c", cols)
+            ttext = _guard(ctx, "sqlite writer", tm.create_table_text)
+            itext = _guard(ctx, "sqlite index writer", tm.create_index_text, tm.index("ix_p", ["a"], False, "a > 5"))
+            SqliteCatalog(tm, ttext, indexes=[("ix_p", ["a"], False, "a > 5", itext)])
+            try:
+                got = _guard(ctx, "sqlite index reader", L.call_method, W.dialect, "get_indexes", W.conn, tm.name)
+            except ModelRaise:
+                got = []
+            for r in got or []:
+                for k in sorted(r.get("dialect_options") or {}):
+                    key = f"{dkey}:reflected-index-option[{k}]"
+                    ok = k in iparams or (k.startswith(dn + "_") and k[len(dn) + 1:] in iargs)
+                    ctx.check(ok, key, f"reflected index option {k!r} is not an argument of {ix_cls.name}() "
+                              f"({dn} dialect arguments: {sorted(iargs)}): Table reflection raises",
+                              f"{k!r} accepted by {ix_cls.name}()", W.dcls.loc)
+        W.analysed()
+
+
+def _column_record(ctx, W: World, dialect: str, catalog_text: str) -> dict:
+    # _read_type returns only the type; re-run its plumbing and keep the whole record
+    L = W.L
+    if dialect == "sqlite":
+        _read_type(ctx, W, dialect, catalog_text)
+        cols = L.call_method(W.dialect, "get_columns", W.conn, "c")
+    elif dialect == "postgresql":
+        row = _Row(name="x", table_name="c", format_type=catalog_text, default=None, not_null=False, generated="",
+                   identity_options=None, comment=None, collation=None)
+        W.conn.stubs["execute"] = _first_then_empty(_Result(rows=[], mappings=[row.inst]))
+        got = L.call_method(W.dialect, "get_multi_columns", W.conn, None, ["c"], Opaque("scope"), Opaque("kind"))
+        cols = dict(list(got)).get((None, "c"))
+    else:
+        _read_type(ctx, W, dialect, catalog_text)
+        cols = L.call_method(W.dialect, "get_columns", W.conn, "c")
+    if not isinstance(cols, list) or len(cols) != 1 or not isinstance(cols[0], dict):
+        raise Unsupported(f"column reflection returned {cols!r}")
+    return cols[0]
+
+
+# ============================================================================================ self-test battery
+
+_SQ = "dialects/sqlite/base.py"
+_PGF = "dialects/postgresql/base.py"
+_MYF = "dialects/mysql/base.py"
+_MYR = "dialects/mysql/reflection.py"
+_CMP = "sql/compiler.py"
+
+# ---- C15-R1 (type names) -------------------------------------------------------------------------------
+R.mutant("r1-sqlite-json-written-under-unknown-name", _SQ,
+         sub('''        # numeric value.   JSONTEXT can be used if this case is required.
+        return "JSON"''', '''        # numeric value.   JSONTEXT can be used if this case is required.
+        return "JSONTEXT"'''), "C15-R1")
+R.mutant("r1-pg-tsvector-row-dropped", _PGF, sub('''    "tsvector": TSVECTOR,\n''', ""), "C15-R1")
+R.mutant("r1-generic-double-precision-renamed", _CMP, sub('''        return "DOUBLE PRECISION"''', '''        return "DOUBLE"'''),
+         "C15-R1")
+R.mutant("r1-mysql-type-lookup-upper-cased", _MYR,
+         sub("col_type = self.dialect.ischema_names[type_]", "col_type = self.dialect.ischema_names[type_.upper()]"),
+         "C15-R1")
+R.mutant("benign-r1-sqlite-affinity-restructured", _SQ,
+         chain(sub('''        if coltype in self.ischema_names:
+            coltype = self.ischema_names[coltype]
+        elif "INT" in coltype:
+            coltype = sqltypes.INTEGER
+        elif "CHAR" in coltype or "CLOB" in coltype or "TEXT" in coltype:
+            coltype = sqltypes.TEXT
+        elif "BLOB" in coltype or not coltype:
+            coltype = sqltypes.NullType
+        elif "REAL" in coltype or "FLOA" in coltype or "DOUB" in coltype:
+            coltype = sqltypes.REAL
+        else:
+            coltype = sqltypes.NUMERIC
+''', '''        declared = coltype
+        known = self.ischema_names.get(declared)
+        if known is not None:
+            coltype = known
+        else:
+            coltype = self._affinity_of_declared_type(declared)
+'''),
+               sub('''    @reflection.cache
+    def get_pk_constraint(self, connection, table_name, schema=None, **kw):''', '''    def _affinity_of_declared_type(self, declared):
+        def has(*parts):
+            return any(p in declared for p in parts)
+
+        if has("INT"):
+            return sqltypes.INTEGER
+        if has("CHAR", "CLOB", "TEXT"):
+            return sqltypes.TEXT
+        if has("BLOB") or not declared:
+            return sqltypes.NullType
+        if has("REAL", "FLOA", "DOUB"):
+            return sqltypes.REAL
+        return sqltypes.NUMERIC
+
+    @reflection.cache
+    def get_pk_constraint(self, connection, table_name, schema=None, **kw):''')), None)
+R.mutant("benign-r1-pg-reflect-type-renamed-locals", _PGF,
+         chain(sub('''        attype = self._format_type_args_pattern.sub("", format_type)
+        attype = self._format_array_spec_pattern.sub("", attype)
+
+        schema_type = self.ischema_names.get(attype.lower(), None)''', '''        bare = self._format_type_args_pattern.sub("", format_type)
+        attype = self._format_array_spec_pattern.sub("", bare)
+        lookup_name = attype.lower()
+
+        schema_type = self.ischema_names[lookup_name] if lookup_name in self.ischema_names else None''')), None)
+R.mutant("benign-r1-sqlite-new-ischema-row", _SQ,
+         sub('''    "BIGINT": sqltypes.BIGINT,
+    "BLOB": sqltypes.BLOB,''', '''    "BIGINT": sqltypes.BIGINT,
+    "INT8": sqltypes.BIGINT,
+    "BLOB": sqltypes.BLOB,'''), None)
+
+# ---- C15-R2 (foreign keys) -----------------------------------------------------------------------------
+R.mutant("r2-sqlite-restrict-not-in-pattern", _SQ,
+         sub('''r"(?:SET\\s+NULL|SET\\s+DEFAULT|CASCADE|RESTRICT|"''', '''r"(?:SET\\s+NULL|SET\\s+DEFAULT|CASCADE|"'''), "C15-R2")
+R.mutant("r2-sqlite-update-action-stored-as-delete", _SQ,
+         sub('''                        if onupdate and onupdate != "NO ACTION":
+                            options["onupdate"] = onupdate''', '''                        if onupdate and onupdate != "NO ACTION":
+                            options["ondelete"] = onupdate'''), "C15-R2")
+R.mutant("r2-pg-match-inner-group-non-capturing", _PGF,
+         sub('''r"[\\s]?(MATCH (FULL|PARTIAL|SIMPLE)+)?"''', '''r"[\\s]?(MATCH (?:FULL|PARTIAL|SIMPLE)+)?"'''), "C15-R2")
+R.mutant("r2-mysql-on-update-before-on-delete", _MYR,
+         sub('''            r"(?: +ON DELETE (?P<ondelete>%(on)s))?"
+            r"(?: +ON UPDATE (?P<onupdate>%(on)s))?" % kw''', '''            r"(?: +ON UPDATE (?P<onupdate>%(on)s))?"
+            r"(?: +ON DELETE (?P<ondelete>%(on)s))?" % kw'''), "C15-R2")
+R.mutant("r2-mysql-ondelete-not-copied", _MYF,
+         sub('''for opt in ("onupdate", "ondelete"):''', '''for opt in ("onupdate",):'''), "C15-R2")
+R.mutant("r2-writer-deferrability-before-actions", _CMP,
+         sub('''        text += self.define_constraint_match(constraint)
+        text += self.define_constraint_cascades(constraint)
+        text += self.define_constraint_deferrability(constraint)
+        return text''', '''        text += self.define_constraint_match(constraint)
+        text += self.define_constraint_deferrability(constraint)
+        text += self.define_constraint_cascades(constraint)
+        return text'''), "C15-R2")
+R.mutant("r2-pg-set-null-column-list-rejected-by-reader", _PGF,
+         sub('''            r"[\\s]?(?:ON (UPDATE|DELETE) "
+            r"(CASCADE|RESTRICT|NO ACTION|"
+            r"SET (?:NULL|DEFAULT)(?:\\s\\(.+\\))?)+)?"
+            r"[\\s]?(?:ON (UPDATE|DELETE) "
+            r"(CASCADE|RESTRICT|NO ACTION|"
+            r"SET (?:NULL|DEFAULT)(?:\\s\\(.+\\))?)+)?"''', '''            r"[\\s]?(?:ON (UPDATE|DELETE) "
+            r"(CASCADE|RESTRICT|NO ACTION|"
+            r"SET (?:NULL|DEFAULT))+)?"
+            r"[\\s]?(?:ON (UPDATE|DELETE) "
+            r"(CASCADE|RESTRICT|NO ACTION|"
+            r"SET (?:NULL|DEFAULT))+)?"'''), "C15-R2")
+R.mutant("benign-r2-sqlite-deferrable-alternation-rewritten", _SQ,
+         sub('''r"((?:NOT\\s+)?DEFERRABLE)?"''', '''r"(NOT\\s+DEFERRABLE|DEFERRABLE)?"'''), None)
+R.mutant("benign-r2-sqlite-fk-pattern-hoisted-and-compiled", _SQ,
+         chain(sub('''            FK_PATTERN = (
+                r'(?:CONSTRAINT\\s+(?:"((?:[^"]|"")+)"|(\\w+))\\s+)?\'''', '''            fk_clause = re.compile(
+                r'(?:CONSTRAINT\\s+(?:"((?:[^"]|"")+)"|(\\w+))\\s+)?\''''),
+               sub('''                r"(?:\\s+INITIALLY\\s+(DEFERRED|IMMEDIATE))?"
+            )
+            for match in re.finditer(FK_PATTERN, table_data, re.I):''', '''                r"(?:\\s+INITIALLY\\s+(DEFERRED|IMMEDIATE))?",
+                re.IGNORECASE,
+            )
+            for match in fk_clause.finditer(table_data):''')), None)
+R.mutant("benign-r2-pg-parse-fk-groups-by-index", _PGF,
+         sub('''        onupdate = (
+            upddelval1
+            if upddelkey1 == "UPDATE"
+            else upddelval2 if upddelkey2 == "UPDATE" else None
+        )
+        ondelete = (
+            upddelval1
+            if upddelkey1 == "DELETE"
+            else upddelval2 if upddelkey2 == "DELETE" else None
+        )
+''', '''        actions = {upddelkey1: upddelval1, upddelkey2: upddelval2}
+        onupdate = actions.get("UPDATE")
+        ondelete = actions.get("DELETE")
+'''), None)
+R.mutant("benign-r2-mysql-options-unrolled", _MYF,
+         sub('''            con_kw = {}
+            for opt in ("onupdate", "ondelete"):
+                if spec.get(opt, False) not in ("NO ACTION", None):
+                    con_kw[opt] = spec[opt]
+''', '''            fk_options = {}
+            upd, dele = spec.get("onupdate"), spec.get("ondelete")
+            if upd is not None and upd != "NO ACTION":
+                fk_options["onupdate"] = upd
+            if dele is not None and dele != "NO ACTION":
+                fk_options["ondelete"] = dele
+            con_kw = fk_options
+'''), None)
+
+# ---- C15-R3 (SQLite constraints in the statement text) ---------------------------------------------------
+R.mutant("r3-unique-signature-sorted", _SQ,
+         sub('''            sig = tuple(idx["column_names"])
+            auto_index_by_sig[sig] = idx''', '''            sig = tuple(sorted(idx["column_names"]))
+            auto_index_by_sig[sig] = idx'''), "C15-R3")
+R.mutant("r3-check-body-starts-at-paren", _SQ,
+         sub('''                sqltext = table_data[match.end() : close].strip()''',
+             '''                sqltext = table_data[match.end() - 1 : close].strip()'''), "C15-R3")
+R.mutant("r3-check-name-not-unquoted", _SQ,
+         sub('''            if constraint_name:
+                # Remove surrounding quotes if present''', '''            if constraint_name and False:
+                # Remove surrounding quotes if present'''), "C15-R3")
+R.mutant("r3-pk-name-only-unquoted", _SQ,
+         sub('''                constraint_name = self._unescape_quoted_name(
+                    result.group(1)
+                ) or result.group(2)''', '''                constraint_name = result.group(2)'''), "C15-R3")
+R.mutant("r3-writer-unique-keyword-key", _CMP,
+         sub('''        text = "UNIQUE %s(%s)" % (''', '''        text = "UNIQUE KEY %s(%s)" % ('''), "C15-R3")
+R.mutant("benign-r3-unique-patterns-compiled-renamed", _SQ,
+         chain(sub('''            for match in re.finditer(UNIQUE_PATTERN, table_data, re.I):
+                quoted_name, unquoted_name, cols = match.group(1, 2, 3)
+                name = self._unescape_quoted_name(quoted_name) or unquoted_name
+                yield name, list(self._find_cols_in_sig(cols))''', '''            table_level = re.compile(UNIQUE_PATTERN, re.IGNORECASE)
+            for found in table_level.finditer(table_data):
+                qname = found.group(1)
+                plain = found.group(2)
+                column_list = found.group(3)
+                if qname:
+                    yield self._unescape_quoted_name(qname), list(
+                        self._find_cols_in_sig(column_list)
+                    )
+                else:
+                    yield plain, list(self._find_cols_in_sig(column_list))''')), None)
+R.mutant("benign-r3-check-sort-key-function", _SQ,
+         sub('''        cks.sort(key=lambda d: d["name"] or "~")  # sort None as last
+        if cks:
+            return cks''', '''        def by_name(rec):
+            return rec["name"] or "~"
+
+        ordered = sorted(cks, key=by_name)
+        if ordered:
+            return ordered'''), None)
+
+# ---- C15-R4 (SQLite indexes) ---------------------------------------------------------------------------
+R.mutant("r4-partial-predicate-case-sensitive", _SQ,
+         sub('''partial_pred_re = re.compile(r"\\)\\s+where\\s+(.+)", re.IGNORECASE)''',
+             '''partial_pred_re = re.compile(r"\\)\\s+where\\s+(.+)")'''), "C15-R4")
+R.mutant("r4-unique-from-origin-column", _SQ, sub("unique=row[2],", "unique=row[3],"), "C15-R4")
+R.mutant("r4-column-id-instead-of-name", _SQ,
+         sub('''idx["column_names"].append(row[2])''', '''idx["column_names"].append(row[1])'''), "C15-R4")
+R.mutant("r4-writer-drops-where", _SQ,
+         sub('''            text += " WHERE " + where_compiled''', '''            text += " " + where_compiled'''), "C15-R4")
+R.mutant("benign-r4-predicate-pattern-class-level", _SQ,
+         chain(sub('''        partial_pred_re = re.compile(r"\\)\\s+where\\s+(.+)", re.IGNORECASE)
+''', ""),
+               sub('''                predicate_match = partial_pred_re.search(index_sql)''',
+                   '''                predicate_match = self._partial_index_predicate.search(
+                    index_sql
+                )'''),
+               sub('''    _broken_fk_pragma_quotes = False''', '''    _partial_index_predicate = re.compile(
+        r"\\)\\s+WHERE\\s+(.+)", re.IGNORECASE | re.DOTALL
+    )
+    _broken_fk_pragma_quotes = False''')), None)
+R.mutant("benign-r4-index-record-literal", _SQ,
+         sub('''            indexes.append(
+                dict(
+                    name=row[1],
+                    column_names=[],
+                    unique=row[2],
+                    dialect_options={},
+                )
+            )''', '''            index_name, is_unique = row[1], row[2]
+            record = {
+                "name": index_name,
+                "column_names": [],
+                "unique": is_unique,
+                "dialect_options": {},
+            }
+            indexes.append(record)'''), None)
+
+# ---- C15-R5 (record keys) ------------------------------------------------------------------------------
+R.mutant("r5-sqlite-fk-option-key-misspelt", _SQ,
+         sub('''                        if ondelete and ondelete != "NO ACTION":
+                            options["ondelete"] = ondelete''', '''                        if ondelete and ondelete != "NO ACTION":
+                            options["on_delete"] = ondelete'''), "C15-R5")
+R.mutant("r5-pg-match-key-renamed", _PGF, sub('''("match", match),''', '''("match_type", match),'''), "C15-R5")
+R.mutant("r5-sqlite-index-option-without-dialect-prefix", _SQ,
+         sub('''indexes[-1]["dialect_options"]["sqlite_where"] = text(''', '''indexes[-1]["dialect_options"]["where"] = text('''),
+         "C15-R5")
+R.mutant("r5-mysql-column-key-misspelt", _MYR,
+         chain(sub('''        col_kw["nullable"] = True''', '''        col_kw["null"] = True'''),
+               sub('''        if spec.get("notnull", False) == "NOT NULL":
+            col_kw["nullable"] = False''', '''        if spec.get("notnull", False) == "NOT NULL":
+            col_kw["null"] = False''')), "C15-R5")
+R.mutant("benign-r5-fk-constructor-new-optional-argument", "sql/schema.py",
+         sub('''        comment: Optional[str] = None,
+        **dialect_kw: Any,
+    ) -> None:
+        r"""Construct a composite-capable FOREIGN KEY.''', '''        comment: Optional[str] = None,
+        not_enforced: Optional[bool] = None,
+        **dialect_kw: Any,
+    ) -> None:
+        r"""Construct a composite-capable FOREIGN KEY.'''), None)
+R.mutant("benign-r5-inspector-options-local-renamed", "engine/reflection.py",
+         chain(sub('''            if "options" in fkey_d:
+                options = fkey_d["options"]
+            else:
+                options = {}''', '''            fk_options = fkey_d.get("options") or {}'''),
+               sub('''                        **options,
+''', '''                        **fk_options,
+''')), None)
